@@ -2197,8 +2197,9 @@ func (s *Store) Join(jr *proto.JoinRequest) error {
 		// that node may need to be removed from the config first.
 		if srv.ID == raft.ServerID(id) || srv.Address == raft.ServerAddress(addr) {
 			// However, if *both* the ID and the address are the same, then no
-			// join is actually needed.
-			if srv.Address == raft.ServerAddress(addr) && srv.ID == raft.ServerID(id) {
+			// join is actually needed -- unless the node asks for a different role.
+			if srv.Address == raft.ServerAddress(addr) && srv.ID == raft.ServerID(id) &&
+				(srv.Suffrage != raft.Nonvoter) == voter {
 				stats.Add(numIgnoredJoins, 1)
 				s.numIgnoredJoins++
 				s.logger.Printf("node %s at %s already member of cluster, ignoring join request", id, addr)
